@@ -179,7 +179,7 @@ static void deadlock() {
 }
 
 static int64_t draw_budget() {
-    if (G.cfg.preempt_mean <= 0) return INT64_MAX / 4;
+    if (G.cfg.preempt_mean <= 0 || G.steps > G.cfg.random_steps) return INT64_MAX / 4;
     double u = G.rng.uniform();
     double g = -std::log(1.0 - u) * G.cfg.preempt_mean;
     if (g < 1) g = 1;
@@ -215,7 +215,8 @@ static Task *choose(Kind kind) {
         fire_timers();
     }
     // spurious wake-up fault: wake one condition waiter for no reason (legal for pthread_cond_wait)
-    if (G.cfg.p_spurious > 0 && !G.conds.empty()) {
+    bool calm = G.steps > G.cfg.random_steps; // past the interesting prefix: default schedule
+    if (G.cfg.p_spurious > 0 && !calm && !G.conds.empty()) {
         if (G.rng.uniform() < G.cfg.p_spurious) {
             std::vector<Task *> ws;
             for (int k = 0; k < G.ntasks; k++) if (G.tasks[k].used && G.tasks[k].st == BLK_COND) ws.push_back(&G.tasks[k]);
@@ -232,7 +233,7 @@ static Task *choose(Kind kind) {
     Task *me = G.cur;
     bool me_runnable = me && me->st == RUNNABLE;
     Task *next = nullptr;
-    switch (G.cfg.strategy) {
+    switch (calm ? (int)RUN_TO_BLOCK : G.cfg.strategy) {
     case RUN_TO_BLOCK:
         next = me_runnable && kind != K_YIELD && kind != K_SLEEP ? me : nullptr;
         if (!next) { // next in id order after me
@@ -467,6 +468,7 @@ Result run(const Config &cfg, const std::function<void()> &body) {
     r.completed = true; r.steps = G.steps; r.switches = G.switches; r.mem_events = G.events; r.preemptions = G.preempts; r.spurious = G.spurious; r.tasks = G.ntask_total;
     r.regions = G.regions; r.chunks = G.chunks; r.timed_jumps = G.jumps; r.sim_time = G.now; r.trace_hash = G.trace; r.sync_hash = G.synch; r.counters = G.counters;
     race_finish(r);
+    for (auto &p : g_region_fns) r.omp_regions[fn_name(fn_lookup(p.first))] += p.second;
     tl_in_rt--;
     return r;
 }
@@ -562,7 +564,8 @@ int pthread_cond_signal(pthread_cond_t *c) {
     Cond *C = get_cond(c);
     if (!C->waiters.empty()) {
         size_t k = 0;
-        if (G.cfg.signal_policy == 0) k = (size_t)G.rng.below(C->waiters.size());
+        if (G.steps > G.cfg.random_steps) k = 0;
+        else if (G.cfg.signal_policy == 0) k = (size_t)G.rng.below(C->waiters.size());
         else if (G.cfg.signal_policy == 2) k = C->waiters.size() - 1;
         Task *w = C->waiters[k];
         C->waiters.erase(C->waiters.begin() + (long)k);
